@@ -24,7 +24,7 @@ RULE = ("one case = one complete Simulator.run(): 1-6 stations (EVSE / DeadbandE
         "120/208/240/277), period 1/5/15, sessions per station with back-to-back reuse and gaps, Battery / "
         "Linear2StageBattery continuous / stepwise (noise 0 and, with a patched np.random.normal, noise > 0) at initial "
         "SoC around every regime boundary, scripted scheduler (max_recompute 1 / k / None, multi-period schedules, "
-        "non-zero pilots addressed to vacant stations); station ids whose lexicographic order differs from the registration order (S-8..S-11, mixed case, numeric strings, descending); ~30% of the plain-network runs pass through to_json()/from_json() (finished run reloaded, or check-pointed mid-run, reloaded, fresh scheduler, continued) and are observed on the reloaded object by station name; a quarter of the runs on contrib StochasticNetwork (random assignment, waiting queue, swaps, early departure; attach/detach logged per EVSE); ~10% malformed histories (one invalid pilot / a session plugged into an occupied station / an unregistered station): run() aborts and the model must fail at exactly that operation. "
+        "non-zero pilots addressed to vacant stations); cross-cutting families on fractions of the runs: earlier simulation on the same network / reused EV objects, interleaved decoy simulation, returned objects scribbled on, re-registered stations, periods 7/0.5/2.5/4.1/(1/3), estimated_departure, scheduler failures (Exception/BaseException) with resume by run()/fresh scheduler/JSON, pilot dtypes and mapping order, a second interpreter with another PYTHONHASHSEED, Interface / DataFrame / direct network entry points; station ids whose lexicographic order differs from the registration order (S-8..S-11, mixed case, numeric strings, descending); ~30% of the plain-network runs pass through to_json()/from_json() (finished run reloaded, or check-pointed mid-run, reloaded, fresh scheduler, continued) and are observed on the reloaded object by station name; a quarter of the runs on contrib StochasticNetwork (random assignment, waiting queue, swaps, early departure; attach/detach logged per EVSE); ~10% malformed histories (one invalid pilot / a session plugged into an occupied station / an unregistered station): run() aborts and the model must fail at exactly that operation. "
         "Distinct = distinct (network, sessions, pilot script); non-trivial = at least one period delivers energy")
 ASSUMPTIONS = ["theorems are over R (exact arithmetic); the implementation computes in IEEE doubles (values compared to 1e-9 relative)",
                "every session id is plugged at most once (C01) and station ids are distinct",
@@ -115,9 +115,12 @@ class _Recording:
         mark = len(draw_log)
         where = {sess_num[self._EVSEs[nm].ev.session_id]: k for k, nm in enumerate(names)
                  if nm in self._EVSEs and self._EVSEs[nm].ev is not None}
+        before = pilots.copy() if _REC.get("probe") else None
         try:
             return super().update_pilots(pilots, i, period)
         finally:
+            if before is not None and not (before == pilots).all():
+                _REC["flags"]["mutated"] = "update_pilots modified the caller's pilot matrix in period %d" % i
             per_station = [[] for _ in names]
             for sid, draws in draw_log[mark:]:
                 per_station[where[sid]] = draws
@@ -126,6 +129,19 @@ class _Recording:
     def post_charging_update(self):
         _REC["occ"].append([None if self._EVSEs[nm].ev is None else _REC["sess_num"][self._EVSEs[nm].ev.session_id]
                             for nm in _REC["names"]])
+        if _REC.get("probe"):
+            # entry point: the direct network call; then scribble on everything that was returned -- returned
+            # arrays / lists / dicts are the caller's, changing them must not change the component
+            ids = self.station_ids
+            arr = self.current_charging_rates
+            _REC["net_rates"].append([float(arr[ids.index(nm)]) if nm in ids else None for nm in _REC["names"]])
+            arr[:] = 999.0
+            ids.reverse()
+            v = self.voltages
+            for k in list(v):
+                v[k] = -1.0
+            ph = self.phase_angles
+            ph.clear()
         return super().post_charging_update()
 
 
@@ -138,14 +154,54 @@ class RecordingStochasticNetwork(_Recording, _StochasticNetwork):
 
 
 class _Checkpoint(Exception):
-    """raised by the scripted scheduler at the chosen invocation: the run is interrupted, dumped with to_json(),
-    restored with from_json() and continued with a fresh scheduler"""
+    """raised by the scripted scheduler at a chosen invocation (args[0] = how the run is resumed)"""
+
+
+class _BaseCheckpoint(BaseException):
+    """the same as a BaseException subclass (KeyboardInterrupt-like)"""
+
+
+def run_decoy(inp, names):
+    """a complete second simulation on ANOTHER network of the same shape (same station ids, other voltages, other
+    sessions), executed from inside the scheduler of the recorded one: two live instances interleaved.  Its own ledger
+    is audited here; returns a message if it does not balance."""
+    import numpy as np
+    from datetime import datetime
+    from acnportal.acnsim import ChargingNetwork, Simulator, EventQueue, PluginEvent
+    from acnportal.acnsim.models import EV, Battery, EVSE
+    from acnportal.algorithms import BaseAlgorithm
+    volts = [float(st["voltage"]) + 7.0 for st in reversed(inp["stations"])]
+    net = ChargingNetwork()
+    for nm, v in zip(names, volts):
+        net.register_evse(EVSE(nm, max_rate=100), v, 0)
+
+    class Flat(BaseAlgorithm):
+        def __init__(self):
+            super().__init__()
+            self.max_recompute = 1
+
+        def schedule(self, active):
+            return {nm: [11.0] for nm in names}
+    evs = [EV(k, k + 3, 50, names[k % len(names)], "d%d" % k, Battery(100, 1, 50)) for k in range(0, 2 * len(names), 4)]
+    sim = Simulator(net, Flat(), EventQueue([PluginEvent(e.arrival, e) for e in evs]), datetime(2021, 1, 1),
+                    period=inp["period"], verbose=False)
+    sim.run()
+    for e in evs:
+        k = names.index(e.station_id)
+        want = 3 * 11.0 * volts[k] / 1000 * (inp["period"] / 60)
+        if abs(e.energy_delivered - want) > 1e-9 * max(1, want):
+            return "decoy simulation: session %s received %r kWh, 3 periods x 11 A x %r V give %r" % (
+                e.session_id, float(e.energy_delivered), volts[k], want)
+        row = np.array(sim.charging_rates)[k]
+        if abs(row[e.arrival:e.departure].sum() - 33.0) > 1e-9:
+            return "decoy simulation: recorded rates of station %s are %r" % (e.station_id, row.tolist())
+    return None
 
 
 NAME_SCHEMES = [
     lambda i: "st%d" % i,                                         # already sorted
     lambda i: "S-%d" % (i + 8),                                   # S-8, S-9, S-10, S-11 ...: numeric, not lexicographic
-    lambda i: ["b2", "B10", "10", "9", "a", "A-1"][i],            # mixed case / numeric-looking strings
+    lambda i: ["b2", "B10", "10", "9", "", "A-1"][i],             # mixed case / numeric-looking strings / the empty string
     lambda i: "PS-%d" % (11 - i),                                 # descending
 ]
 
@@ -174,9 +230,11 @@ def run_history(inp, extra=None, midrun=None):
     station_ids = station_names(inp)
     stochastic = inp.get("net_class") == "stochastic"
     noise = NoiseScript(inp.get("noise_draws", []))
-    _REC = dict(ops=[], occ=[], names=station_ids, sess_num={}, batt_kind={}, draw_log=[], stochastic=stochastic)
+    flags = dict(ambiguous=False, reloaded=0, interrupted=0)
+    _REC = dict(ops=[], occ=[], names=station_ids, sess_num={}, batt_kind={}, draw_log=[], stochastic=stochastic,
+                probe=bool(inp.get("probe")), net_rates=[], flags=flags)
     ops, occ, sess_num, ev_batt_kind, draw_log = _REC["ops"], _REC["occ"], _REC["sess_num"], _REC["batt_kind"], _REC["draw_log"]
-    flags = dict(ambiguous=False, reloaded=0)
+    any_json = bool(inp.get("json"))
 
     if stochastic:
         # the contrib subclass (random space assignment, waiting queue, swaps, early departure) detaches and
@@ -199,17 +257,56 @@ def run_history(inp, extra=None, midrun=None):
                     ops.append(["unplug", _k, sess_num[_evse.ev.session_id]])
                 return _orig()
             evse.plugin, evse.unplug = _plugin, _unplug
+        for r_idx, r_kind, r_volt in inp.get("rereg", []):
+            if r_idx == k:
+                # the station is first registered with other values and then re-registered (replaced in place)
+                net.register_evse(make_evse(sid, tuple(r_kind)), r_volt, 77.0)
         net.register_evse(evse, st["voltage"], st.get("phase", 0))
 
     for c in inp.get("constraints", []):
         from acnportal.acnsim.network.current import Current
         net.add_constraint(Current({station_ids[int(k)]: v for k, v in c["coefs"].items()}), c["limit"], name=c["name"])
 
+    # ---- object reuse: a complete first simulation on the SAME network object (not recorded), optionally handing its
+    # EV / battery objects (after ev.reset()) to the recorded simulation
+    warm_evs = []
+    if inp.get("warmup"):
+        w = inp["warmup"]
+        wscript = w["script"]
+
+        class Warm(BaseAlgorithm):
+            def __init__(self):
+                super().__init__()
+                self.max_recompute = 1
+
+            def schedule(self, active_sessions):
+                t = self.interface.current_time
+                return {} if t >= len(wscript) else {station_ids[int(k)]: list(v) for k, v in wscript[t].items()}
+        for k, s in enumerate(w["sessions"]):
+            sess_num["sess%d" % k] = k
+            ev_batt_kind["sess%d" % k] = s["battery"]["kind"]
+            warm_evs.append(EV(s["arrival"], s["departure"], s["requested"], station_ids[s["station"]], "sess%d" % k,
+                               make_battery(s["battery"])))
+        with warnings.catch_warnings():
+            warnings.simplefilter("ignore")
+            Simulator(net, Warm(), EventQueue([PluginEvent(e.arrival, e) for e in warm_evs]), datetime(2021, 3, 3),
+                      period=inp["period"], verbose=False).run()
+        del ops[:], occ[:], draw_log[:], _REC["net_rates"][:]
+
     events = []
     for k, s in enumerate(inp["sessions"]):
         name = "sess%d" % k
         sess_num[name] = k
         ev_batt_kind[name] = s["battery"]["kind"]
+        if inp.get("reuse_evs") and k < len(warm_evs):
+            # the same EV and battery objects serve a second session after reset()
+            ev = warm_evs[k]
+            ev.reset()
+            ev.arrival, ev.departure = s["arrival"], s["departure"]
+            ev.estimated_departure = s.get("est_dep", s["departure"])
+            ev.update_station_id(station_ids[s["station"]])
+            events.append(PluginEvent(s["arrival"], ev))
+            continue
         batt = make_battery(s["battery"])
 
         def charge(pilot, voltage, period, _orig=batt.charge, _k=k):
@@ -225,34 +322,82 @@ def run_history(inp, extra=None, midrun=None):
                 return _orig(pilot, voltage, period)
             finally:
                 draw_log.append((_k, noise.log[before:]))
-        if not inp.get("json"):
+        if not any_json:
             # (an instance attribute would be serialised as an opaque stub by to_json; JSON cases are noise-free)
             batt.charge = charge
         ev = EV(s["arrival"], s["departure"], s["requested"],
-                station_ids[s["station"]] if s["station"] >= 0 else "not-registered", name, batt)
+                station_ids[s["station"]] if s["station"] >= 0 else "not-registered", name, batt,
+                estimated_departure=s.get("est_dep"))
         events.append(PluginEvent(s["arrival"], ev))
 
     script = inp["script"]           # list of (length, {station index: [pilots]}) per iteration
     json_mode = inp.get("json")
     calls = dict(n=0)
 
+    interrupts = {int(i[0]): i for i in inp.get("interrupts", [])}
+    probe_log = []
+    import random as _pyrandom
+    drng = _pyrandom.Random(inp["dtypes"]) if inp.get("dtypes") is not None else None
+
+    def cast(v):
+        # the same pilot handed over as python int / float, numpy scalar of several widths
+        c = drng.randrange(6)
+        if c == 0 and float(v).is_integer():
+            return int(v)
+        if c == 1:
+            return np.float64(v)
+        if c == 2 and float(v).is_integer():
+            return np.int64(v)
+        if c == 3 and float(v).is_integer():
+            return np.int32(v)
+        if c == 4 and float(np.float32(v)) == float(v):
+            return np.float32(v)
+        return float(v)
+
     class Scripted(BaseAlgorithm):
-        def __init__(self, checkpoint_at=None):
+        def __init__(self):
             super().__init__()
             self.max_recompute = inp["max_recompute"]
-            self.checkpoint_at = checkpoint_at
 
         def schedule(self, active_sessions):
             t = self.interface.current_time
             calls["n"] += 1
-            if self.checkpoint_at is not None and calls["n"] == self.checkpoint_at:
-                raise _Checkpoint()
+            it_ = interrupts.pop(calls["n"], None)
+            if it_ is not None:
+                # the scheduling algorithm fails in this period (Exception or BaseException subclass)
+                raise (_BaseCheckpoint if it_[1] == "base" else _Checkpoint)(it_[2])
+            if inp.get("decoy_at") == calls["n"]:
+                flags["decoy"] = run_decoy(inp, station_ids)
+            if inp.get("probe"):
+                # entry points through the Interface; the returned objects are scribbled on afterwards
+                lr = self.interface.last_actual_charging_rate
+                ses = self.interface.active_sessions()
+                probe_log.append(dict(t=int(t), rates={sess_num[k]: float(v) for k, v in lr.items()},
+                                      peak=float(self.interface.get_prev_peak()),
+                                      energy={sess_num[x.session_id]: float(x.energy_delivered) for x in ses}))
+                for k in list(lr):
+                    lr[k] = 999.0
+                for x in ses:
+                    x.energy_delivered = -5.0
+                    x.station_id = "scribble"
+                for x in active_sessions:
+                    x.energy_delivered = -7.0
             if midrun is not None:
                 mid_results.append(midrun(self.interface._simulator, station_ids, sess_num))
             if t >= len(script):
                 return {}
             ent = script[t]
-            return {station_ids[int(k)]: list(v) for k, v in ent.items()}
+            if drng is None:
+                return {station_ids[int(k)]: list(v) for k, v in ent.items()}
+            # dtypes / containers / entry order of the mapping
+            keys = list(ent)
+            drng.shuffle(keys)
+            out_ = {}
+            for k in keys:
+                vals = [cast(x) for x in ent[k]]
+                c = drng.randrange(3)
+                out_[station_ids[int(k)]] = vals if c == 0 else (tuple(vals) if c == 1 else np.array([float(x) for x in vals]))
+            return out_
 
     mid_results = []
     old_normal = battery_mod.np.random.normal
@@ -261,17 +406,23 @@ def run_history(inp, extra=None, midrun=None):
     try:
         with warnings.catch_warnings():
             warnings.simplefilter("ignore")
-            sim = Simulator(net, Scripted(inp.get("json_at") if json_mode == "midrun" else None),
-                            EventQueue(events), datetime(2021, 3, 4), period=inp["period"], verbose=False)
+            sim = Simulator(net, Scripted(), EventQueue(events), datetime(2021, 3, 4), period=inp["period"], verbose=False)
             try:
-                try:
-                    sim.run()
-                except _Checkpoint:
-                    # check-point in the middle of the run: dump, reload, fresh scheduler, continue
-                    sim = Simulator.from_json(sim.to_json())
-                    flags["reloaded"] += 1
-                    sim.update_scheduler(Scripted())
-                    sim.run()
+                while True:
+                    try:
+                        sim.run()
+                        break
+                    except (_Checkpoint, _BaseCheckpoint) as cp:
+                        # the scheduler failed in the middle of the run; resume: run() again with the same scheduler
+                        # object / with a fresh one / after a to_json()-from_json() round trip with a fresh one
+                        flags["interrupted"] += 1
+                        mode = cp.args[0] if cp.args else "json"
+                        if mode == "json":
+                            sim = Simulator.from_json(sim.to_json())
+                            flags["reloaded"] += 1
+                            sim.update_scheduler(Scripted())
+                        elif mode == "fresh":
+                            sim.update_scheduler(Scripted())
             except Exception as e:  # noqa
                 err = type(e).__name__
             if json_mode == "final" and err is None:
@@ -304,6 +455,16 @@ def run_history(inp, extra=None, midrun=None):
                                  charge_json=float(bj["_current_charge"]), init=float(ev._battery._init_charge),
                                  rate=float(ev.current_charging_rate), requested=float(ev.requested_energy)))
             out["sessions"] = sess
+            out["interrupted"] = flags["interrupted"]
+            out["probe"] = probe_log
+            out["net_rates"] = _REC["net_rates"]
+            out["flag_msgs"] = [flags[k] for k in ("mutated", "decoy") if flags.get(k)]
+            if inp.get("probe") and err is None:
+                df = sim.charging_rates_as_df()          # entry point: the DataFrame view, columns = station ids
+                out["df_rates"] = [[float(df[nm].iloc[t]) for nm in station_ids] for t in range(min(it, len(df)))]
+                df.iloc[:, :] = 123.0
+                out["rates_after_scribble"] = [[float(x) for x in np.array(sim.charging_rates)[
+                    [ids_now.index(nm) for nm in station_ids], t]] for t in range(min(it, rates.shape[1]))]
             if err is None:
                 out["total"] = float(acnsim.analysis.total_energy_delivered(sim))
                 out["agg_current"] = [float(x) for x in acnsim.analysis.aggregate_current(sim)[:it]]
@@ -361,7 +522,8 @@ def rand_battery(rng, noisy):
 
 def gen_history(rng, tier, force=None):
     n = rng.randint(1, 6)
-    period = rng.choice([1, 5, 15])
+    # whole minutes, and periods that do not divide 60 / fractional / float-inexact ones
+    period = rng.choice([1, 5, 15, 1, 5, 15, 7, 0.5, 2.5, 4.1, 1 / 3])
     H = rng.randint(2, 12 if tier == "quick" else 24)
     stations = [dict(kind=rng.choice(KINDS), voltage=rng.choice(VOLTS), phase=rng.choice([30, -90, 150, 0]))
                 for _ in range(n)]
@@ -370,10 +532,17 @@ def gen_history(rng, tier, force=None):
     # "final" = the finished run is reloaded and observed on the reloaded object; "midrun" = the run is check-pointed
     # at a scheduler invocation, reloaded, given a fresh scheduler and continued
     json_mode = None
-    if force in ("json-final", "json-midrun"):
-        json_mode = force[5:]
-    elif force is None and rng.random() < 0.3:
-        json_mode = rng.choice(["final", "midrun"])
+    interrupts = []
+    if force == "json-final" or (force is None and rng.random() < 0.12):
+        json_mode = "final"
+    elif force == "json-midrun" or (force is None and rng.random() < 0.3):
+        # the scheduling algorithm fails (Exception / BaseException subclass) at one or two of its invocations; the run
+        # is resumed by run() with the same scheduler object, with a fresh one, or after to_json()/from_json()
+        for at in sorted(rng.sample(range(1, 9), rng.choice([1, 1, 2]))):
+            interrupts.append([at, rng.choice(["exc", "base"]),
+                               "json" if force == "json-midrun" else rng.choice(["rerun", "fresh", "json", "json"])])
+        if any(i[2] == "json" for i in interrupts):
+            json_mode = "midrun"
     if json_mode:
         noisy = False
     name_scheme = rng.choice([0, 1, 1, 2, 2, 3])
@@ -387,11 +556,15 @@ def gen_history(rng, tier, force=None):
             b = rand_battery(rng, noisy)
             sessions.append(dict(station=s, arrival=t, departure=t + dur,
                                  requested=round(rng.uniform(0.1, max(0.2, b["cap"] - b["init"])), 3), battery=b))
+            if rng.random() < 0.3:
+                sessions[-1]["est_dep"] = t + rng.randint(1, dur + 3)       # estimated_departure != departure
             t = t + dur + (0 if rng.random() < 0.5 else rng.randint(1, 3))
     # a quarter of the histories run on the contrib subclass StochasticNetwork (random free station, waiting
     # queue, swaps, optional early departure): it attaches / detaches EVs through the EVSEs directly.  Extra
     # overlapping sessions create queueing; sessions still draw current when they leave, stations stay vacant after
     stoch = force == "stochastic" or (force is None and json_mode is None and rng.random() < 0.3)
+    if stoch and json_mode is None:
+        interrupts = [i for i in interrupts if i[2] != "json"]
     if stoch:
         # saturate the site: more simultaneous sessions than stations (waiting queue, swaps); small requests so
         # that sessions reach their requested energy while still drawing current (early departure swaps an EV in
@@ -455,9 +628,41 @@ def gen_history(rng, tier, force=None):
     out = dict(stations=stations, period=period, sessions=sessions, script=script,
                max_recompute=max_recompute, noise_draws=draws, bad=bad, name_scheme=name_scheme)
     if json_mode and bad is None:
-        out.update(json=json_mode, json_at=rng.randint(1, max(1, min(8, last))))
+        out.update(json=json_mode)
+    if interrupts and bad is None:
+        out.update(interrupts=interrupts)
     if stoch:
         out.update(net_class="stochastic", rand_seed=rng.randint(0, 10**6), early_departure=rng.random() < 0.65)
+    if force in (None, "stochastic", "json-final", "json-midrun") and bad is None:
+        # ---- cross-cutting families, each on a fraction of the histories
+        if rng.random() < 0.35:
+            out["probe"] = True                    # every entry point that reports the quantity; returned objects scribbled on
+        if rng.random() < 0.3:
+            out["dtypes"] = rng.randint(0, 10**6)  # int / float / numpy scalars, list / tuple / array, shuffled mapping
+        if rng.random() < 0.2:
+            out["decoy_at"] = rng.randint(1, 5)    # a second live simulation of the same shape run in between
+        if rng.random() < 0.15:
+            # stations first registered with other values, then re-registered
+            out["rereg"] = [[k, rng.choice(KINDS), rng.choice(VOLTS)] for k in rng.sample(range(n), rng.randint(1, min(2, n)))]
+        if not stoch and rng.random() < 0.15:
+            # a complete earlier simulation on the same network object; half of the time its EV / battery objects
+            # are reset() and serve the recorded simulation as well
+            wses, t0 = [], 0
+            for s in range(n):
+                if rng.random() < 0.7:
+                    b = rand_battery(rng, False)
+                    a = rng.randint(0, 2)
+                    wses.append(dict(station=s, arrival=a, departure=a + rng.randint(1, 4),
+                                     requested=round(rng.uniform(0.1, max(0.2, b["cap"] - b["init"])), 3), battery=b))
+            wlast = max([s["departure"] for s in wses], default=0)
+            wscript = [{str(s): [float(rng.choice(valid_pilots(stations[s]["kind"])))] for s in range(n)}
+                       for _ in range(wlast + 1)]
+            out["warmup"] = dict(sessions=wses, script=wscript)
+            if rng.random() < 0.5 and wses:
+                out["reuse_evs"] = True
+                for k in range(min(len(wses), len(sessions))):
+                    sessions[k]["battery"] = dict(wses[k]["battery"])
+                    sessions[k]["requested"] = wses[k]["requested"]
     return out
 
 
@@ -522,7 +727,9 @@ def make_case(inp):
                            "noisy" if inp.get("noise_draws") else "noiseless",
                            "mr=%s" % inp["max_recompute"],
                            ("/stochastic" if inp.get("net_class") == "stochastic" else "")
-                           + ("/json-%s%s" % (inp["json"], "" if impl.get("reloaded") else "(not reached)") if inp.get("json") else ""))
+                           + ("/json-%s%s" % (inp["json"], "" if impl.get("reloaded") else "(not reached)") if inp.get("json") else "")
+                           + ("/interrupted" if impl.get("interrupted") else "")
+                           + "".join("/" + k for k in ("probe", "dtypes", "decoy_at", "rereg", "warmup", "reuse_evs") if inp.get(k)))
     return dict(input=inp, impl={k: v for k, v in impl.items()}, coq=case_coq(inp, impl), ambiguous=bool(impl.get("ambiguous")),
                 kind=kind, sig=[inp["stations"], inp["sessions"], inp["script"], inp["period"]],
                 nontrivial=delivered)
@@ -546,7 +753,9 @@ def pmap(fn, items, workers=8):
 def gen_cases(rng, n, tier):
     inputs = [gen_history(rng, tier, {3: "invalid", 5: "overlap", 7: "unknown", 9: "stochastic", 11: "json-final",
                                       13: "json-midrun"}.get(k)) for k in range(n)]
-    return pmap(make_case, inputs)
+    cases = pmap(make_case, inputs)
+    hashseed_check(cases)
+    return cases
 
 
 # ------------------------------------------------------------------------------------------------
@@ -565,6 +774,8 @@ def monitor(case):
     T = inp["period"]
     rates, occ = impl["rates"], impl["occ"]
     volts = [st["voltage"] for st in inp["stations"]]
+    for msg in impl.get("flag_msgs", []) + ([impl["hashseed_mismatch"]] if impl.get("hashseed_mismatch") else []):
+        return msg
     if len(rates) != impl["iteration"] or len(occ) != impl["iteration"]:
         return "charging_rates has %d columns for %d periods" % (len(rates), impl["iteration"])
     if not impl["tail_zero"]:
@@ -611,7 +822,77 @@ def monitor(case):
                     impl["station_names"][k], v, "reloaded " if impl.get("reloaded") else "", w)
         if sorted(impl["station_ids_now"]) != sorted(impl["station_names"]):
             return "station ids %r differ from the registered ones %r" % (impl["station_ids_now"], impl["station_names"])
+    r = monitor_probes(inp, impl)
+    if r:
+        return r
     return None
+
+
+def monitor_probes(inp, impl):
+    """the same quantities read through the other public entry points (direct network call each period, the
+    DataFrame view, the Interface inside the scheduler), and robustness against the caller scribbling on them"""
+    rates, occ = impl["rates"], impl["occ"]
+    for t, row in enumerate(impl.get("net_rates", [])[:len(rates)]):
+        if [float(x) for x in row] != [float(x) for x in rates[t]]:
+            return "network.current_charging_rates in period %d was %r but Simulator.charging_rates records %r" % (t, row, rates[t])
+    if "df_rates" in impl and impl["df_rates"] != rates:
+        return "charging_rates_as_df() differs from charging_rates"
+    if "rates_after_scribble" in impl and impl["rates_after_scribble"] != rates:
+        return "writing into the DataFrame returned by charging_rates_as_df() changed Simulator.charging_rates"
+    agg = [float(sum(F(x) for x in col)) for col in rates]
+    volts = [st["voltage"] for st in inp["stations"]]
+    for p in impl.get("probe", []):
+        t = p["t"]
+        if t > len(rates):
+            continue
+        want_peak = max([0.0] + agg[:t])
+        if not close(p["peak"], want_peak):
+            return "Interface.get_prev_peak() at period %d is %r, maximum recorded aggregate so far %r" % (t, p["peak"], want_peak)
+        for sid, r in p["rates"].items():
+            sid = int(sid)
+            if t >= 1 and sid in occ[t - 1]:
+                k = occ[t - 1].index(sid)
+                if not close(r, rates[t - 1][k]):
+                    return ("Interface.last_actual_charging_rate at period %d reports %r A for session %d, recorded rate of "
+                            "its station in period %d is %r" % (t, r, sid, t - 1, rates[t - 1][k]))
+        for sid, e in p["energy"].items():
+            sid = int(sid)
+            led = sum(F(rates[tau][k]) * F(volts[k]) / 1000 * F(inp["period"]) / 60
+                      for tau in range(min(t, len(rates))) for k in range(len(volts)) if occ[tau][k] == sid)
+            if not close(e, float(led)):
+                return ("Interface.active_sessions() at period %d reports %r kWh delivered to session %d, its recorded "
+                        "rates so far integrate to %r" % (t, e, sid, float(led)))
+    return None
+
+
+def hashseed_check(cases, k=3):
+    """re-run the first k histories in a second interpreter with another PYTHONHASHSEED: the recorded trajectory
+    must be identical"""
+    import os
+    import subprocess
+    import sys
+    picked = [c for c in cases if c["impl"].get("ok") and not c["input"].get("decoy_at")][:k]
+    if not picked:
+        return
+    code = ("import json,sys\nfrom harness import c02\nout=[]\n"
+            "for inp in json.load(sys.stdin):\n"
+            "    r=c02.run_history(inp)\n"
+            "    out.append([r['rates'], r['peak'], [[s['sid'], s['energy'], s['charge']] for s in r['sessions']]])\n"
+            "print('HASHSEED-RESULT'+json.dumps(out))\n")
+    env = dict(os.environ, PYTHONHASHSEED="4242")
+    try:
+        p = subprocess.run([sys.executable, "-c", code], input=json.dumps([c["input"] for c in picked]), env=env,
+                           stdout=subprocess.PIPE, stderr=subprocess.PIPE, text=True, timeout=120)
+        line = [l for l in p.stdout.splitlines() if l.startswith("HASHSEED-RESULT")]
+        res = json.loads(line[0][len("HASHSEED-RESULT"):]) if line else None
+    except Exception:  # noqa
+        res = None
+    if res is None:
+        return
+    for c, r in zip(picked, res):
+        mine = [c["impl"]["rates"], c["impl"]["peak"], [[s["sid"], s["energy"], s["charge"]] for s in c["impl"]["sessions"]]]
+        if json.loads(json.dumps(mine)) != r:
+            c["impl"]["hashseed_mismatch"] = "the same history gives a different trajectory in a process with another PYTHONHASHSEED"
 
 
 def search(rng, budget_s, broken):
